@@ -29,8 +29,15 @@ EuclidPartsAgree(v, w) == /\ (v.hq = 1 /\ w.hq = 1 => v.q = w.q)
 RatAgree(e, o1, o2) ==
   IF o1.k = "panic" \/ o2.k = "panic" THEN o1.k = o2.k
   ELSE IF e.op = "euclid" THEN EuclidPartsAgree(o1.v, o2.v) ELSE SameRat(o1.v, o2.v)
+\* float Euclidean forms: the quotient is an integer, the remainder a float compared as recorded (representation and all)
+FloatEuclidAgree(o1, o2) ==
+  IF o1.k = "panic" \/ o2.k = "panic" THEN o1.k = o2.k
+  ELSE /\ (o1.v.hq = 1 /\ o2.v.hq = 1 => o1.v.q = o2.v.q)
+       /\ (o1.v.hr = 1 /\ o2.v.hr = 1 => o1.v.r = o2.v.r)
 Disagreement(e) ==
-  IF Fam(e) = "C02"
+  IF Fam(e) = "float" /\ e.op = "euclid"
+  THEN \E i, j \in 1..Len(e.outs) : i < j /\ ~FloatEuclidAgree(e.outs[i].out, e.outs[j].out)
+  ELSE IF Fam(e) = "C02"
   THEN \E i, j \in 1..Len(e.outs) : i < j /\ ~DivAgree(e.outs[i].out, e.outs[j].out)
   ELSE IF Fam(e) \in {"rbig", "relaxed"}
   THEN \E i, j \in 1..Len(e.outs) : i < j /\ ~RatAgree(e, e.outs[i].out, e.outs[j].out)
